@@ -94,8 +94,12 @@ OnSurface(e, G) ==
            t2 == DTwo(DMul(e.R, w))
            res == DSub(DAdd(r2, t1), t2)
            \* iterative solvers stop at |dz| < tol: |F| may be up to |dF/dw| * tol
-           slack == DAdd(DShift(DAdd(DAdd(r2, DAbs(t1)), DAbs(t2)), -TOL),
-                         DMul(DShift(DAbs(G.h), 2), e.tol))
+           \* ... and the closed-form root (-b +- sqrt(d)) / 2a cancels near the vertex, leaving an
+           \* absolute position error of a few ulp of |R|: allow 2^-44 (|R| + |q|) in z, i.e.
+           \* |dF/dw| times that in F (measured: 5e-14 mm at R = 52 mm)
+           slack == DAdd(DAdd(DShift(DAdd(DAdd(r2, DAbs(t1)), DAbs(t2)), -TOL),
+                              DMul(DShift(DAbs(G.h), 2), e.tol)),
+                         DMul(DTwo(DAbs(G.h)), DShift(DAdd(DAbs(e.R), Norm1(q)), -44)))
        IN /\ DLe(DAbs(res), slack)
           \* the sag branch (the root nearer the vertex): R (R - (1+k) w) >= 0
           /\ (e.shape = "sag" => DSign(DMul(e.R, DNeg(G.h))) >= 0)
@@ -110,9 +114,9 @@ Opl(e) == LET dp == V3Sub(e.p, e.p0)
               rhs == DMul(DSq(e.n1), Dot(dp, dp))
           IN DSign(dl) >= 0 /\ Small(DSub(lhs, rhs), DAdd(DAdd(lhs, rhs), DShift(DSq(e.o), -30)), TOL)
 \* vector Snell law  n1 (d0 x g) = n2 (d x g)  /  reflection  d = d0 - 2 (d0.g) g / |g|^2
-Snell(e, G) == LET l == VScale(e.n1, Cross(G.d0, G.g))
-                   r == VScale(e.n2, Cross(G.d, G.g))
-               IN \A i \in 1..3 : Small(DSub(l[i], r[i]), DMul(DAdd(DAbs(e.n1), DAbs(e.n2)), Norm1(G.g)), TOL)
+Snell(e, G) == LET lhs == VScale(e.n1, Cross(G.d0, G.g))
+                   rhs == VScale(e.n2, Cross(G.d, G.g))
+               IN \A i \in 1..3 : Small(DSub(lhs[i], rhs[i]), DMul(DAdd(DAbs(e.n1), DAbs(e.n2)), Norm1(G.g)), TOL)
 Reflect(e, G) == LET g == G.g
                      g2 == Dot(g, g)
                      k2 == DTwo(Dot(G.d0, g))
@@ -128,6 +132,17 @@ Tir(e, G) == /\ ~e.refl
                     margin == DSub(DMul(DSq(e.n2), g2), DMul(DSq(e.n1), DSub(g2, c2)))   \* < 0 <=> TIR
                 IN DLt(margin, DNeg(DShift(DMul(DSq(e.n2), g2), -20)))
 
+\* root choice of the closed-form conic: the sag sheet is the root nearer the vertex,
+\* R (R - (1+k) w) >= 0.  With t the distance travelled and t' the other root of the
+\* ray/quadric equation a t^2 + b t + c = 0,  t t' = c / a.
+FarSheet(e, G) == ~Flat(e) /\ e.shape = "conic" /\ DSign(DMul(e.R, DNeg(G.h))) < 0
+NearAhead(e, G) ==
+  LET q0 == LocPt(e, e.p0)
+      a == DAdd(DAdd(DSq(G.d0[1]), DSq(G.d0[2])), DMul(DAdd(DOne, e.kk), DSq(G.d0[3])))
+      c == DSub(DAdd(DAdd(DSq(q0[1]), DSq(q0[2])), DMul(DAdd(DOne, e.kk), DSq(q0[3]))), DTwo(DMul(e.R, q0[3])))
+      t == Dot(V3Sub(e.p, e.p0), e.d0)
+  IN DSign(c) * DSign(a) * DSign(t) > 0
+
 --------------------------------------------------------------------------
 (* C02 verdict for one event                                                 *)
 FinRec(p, d, o) == VFin(p) /\ VFin(d) /\ IsFin(o)
@@ -137,10 +152,17 @@ JudgeRay(e) ==
        \* once non-finite, always non-finite
        (IF VFin(e.p) /\ VFin(e.d) THEN {"invalid_became_finite"} ELSE {})
   ELSE IF ~VFin(e.p) THEN {}            \* no intersection reported: nothing finite is claimed
-  ELSE LET G == Geo(e) IN
-       (IF OnSurface(e, G) THEN {} ELSE {"on_surface"}) \cup
-       (IF Collinear(e) THEN {} ELSE {"collinear"}) \cup
-       (IF IsFin(e.o) /\ Opl(e) THEN {} ELSE {"opl"}) \cup
+  ELSE LET G == Geo(e)
+           common == (IF OnSurface(e, G) THEN {} ELSE {"on_surface"}) \cup
+                     (IF Collinear(e) THEN {} ELSE {"collinear"}) \cup
+                     (IF IsFin(e.o) /\ Opl(e) THEN {} ELSE {"opl"})
+       IN
+       IF FarSheet(e, G)
+       THEN \* the point is on the far sheet of the conicoid.  Admissible only when the near-sheet
+            \* intersection lies behind the ray (the library does not propagate backwards to a
+            \* closed-form conic); such steps are outside sequential validity and only noted.
+            common \cup (IF NearAhead(e, G) THEN {"root_choice"} ELSE {"~virtual_surface"})
+       ELSE common \cup
        (IF ~VFin(e.d) THEN {}
         ELSE (IF Unit(e) THEN {} ELSE {"unit"}) \cup
              (IF e.refl THEN (IF Reflect(e, G) THEN {} ELSE {"reflect"})
